@@ -4,6 +4,7 @@
 -/
 import Msmart.Driver.AC
 import Msmart.Driver.Dev
+import Msmart.Driver.Lan
 
 open Msmart Msmart.Driver
 
@@ -19,6 +20,9 @@ def handle (line : String) : String :=
     | some r => r
     | none =>
     match storeOp op t with
+    | some r => r
+    | none =>
+    match lanOp op t with
     | some r => r
     | none => "bad-op"
 
